@@ -12,6 +12,7 @@
 -/
 import ClientGoVerif.Proofs.MvccStable
 import ClientGoVerif.Proofs.Perc
+import ClientGoVerif.Proofs.MvccFull
 namespace CGV.Props.C01
 open CGV CGV.Mvcc CGV.Perc
 
@@ -55,6 +56,18 @@ theorem prewrite_conflict_detected (a : CCArgs) (w : Write) (rest : List Write)
     at or below the reader's start ts in the final store -/
 def readOK (s : Store) (startTS : Nat) (key : Bytes) (value : Option Bytes) : Prop :=
   (match visible s key startTS with | some v => if v.isEmpty then none else some v | none => none) = value
+
+/-- async commit / one-phase commit (profile `full`, the store the async/1PC runs execute against): the commit
+    timestamp bound chosen by the store lies above its max_ts — every read timestamp it has served — and above the start
+    and for-update timestamps; together with `read_stable` no async or 1PC commit lands under a served read -/
+theorem async_commit_ts_above_served_reads (f f' : MvccFull.FStore) (r : PrewriteReq) (x : MvccFull.FPrewriteExtra)
+    (resp : MvccFull.FPrewriteResp) (h : MvccFull.fprewrite f r x = (f', resp)) :
+    (resp.minCommitTS ≠ 0 → f.maxTS < resp.minCommitTS ∧ r.startTS < resp.minCommitTS ∧ r.forUpdateTS < resp.minCommitTS ∧ r.minCommitTS ≤ resp.minCommitTS) ∧
+    (resp.onePCCommitTS ≠ 0 → f.maxTS < resp.onePCCommitTS ∧ r.startTS < resp.onePCCommitTS ∧ r.forUpdateTS < resp.onePCCommitTS) :=
+  MvccFull.fprewrite_ts_above_reads f f' r x resp h
+
+theorem served_read_raises_max_ts (f : MvccFull.FStore) (ts : Nat) (h : ts ≠ maxU64) : ts ≤ (f.bump ts).maxTS :=
+  MvccFull.bump_covers f ts h
 
 example : firstVisible [⟨.put, 10, 20, [1]⟩, ⟨.rollback, 5, 5, []⟩] 25 = some ⟨.put, 10, 20, [1]⟩ := by decide
 
